@@ -56,6 +56,10 @@ type Recorder struct {
 	Samples   []json.RawMessage `json:"samples"`
 	Counters  map[string]int64  `json:"counters"`
 	maxSample int
+	// fuzz workers: several processes write into one shard directory and may be killed at any time
+	statsName  string
+	flushEvery int
+	maxNonTriv int
 }
 
 type statsFile struct {
@@ -94,6 +98,19 @@ func New(property, test string) *Recorder {
 			}
 		}
 	}
+	return r
+}
+
+// NewWorker is New for native fuzz targets: the target function runs in worker
+// processes which share the shard directory and are killed when the campaign
+// ends, so each process writes its own statistics file and rewrites it
+// periodically. The set of distinct fingerprints is capped (the reported number
+// of distinct non-trivial cases is then a lower bound).
+func NewWorker(property, test string) *Recorder {
+	r := New(property, test)
+	r.statsName = fmt.Sprintf("stats-%s-%d.json", test, os.Getpid())
+	r.flushEvery = 5000
+	r.maxNonTriv = 200000
 	return r
 }
 
@@ -137,6 +154,13 @@ func (r *Recorder) Case(fp string, nontrivial bool, labels []string, sample func
 	r.Evals++
 	for _, l := range labels {
 		r.Labels[l]++
+	}
+	if r.flushEvery > 0 && r.Evals%r.flushEvery == 0 {
+		defer r.flushLocked()
+	}
+	if nontrivial && r.maxNonTriv > 0 && len(r.NonTriv) >= r.maxNonTriv {
+		r.Counters["nontrivial_cases_beyond_fingerprint_cap"]++
+		return
 	}
 	if nontrivial {
 		if !r.NonTriv[fp] {
@@ -199,13 +223,27 @@ func (r *Recorder) Flush() {
 	}
 	r.mu.Lock()
 	defer r.mu.Unlock()
+	r.flushLocked()
+}
+
+func (r *Recorder) flushLocked() {
+	if r.outDir == "" {
+		return
+	}
 	sf := statsFile{Property: r.Property, Evals: r.Evals, Labels: r.Labels, Samples: r.Samples, Counters: r.Counters, KnownHits: r.KnownHits}
 	for fp := range r.NonTriv {
 		sf.NonTriv = append(sf.NonTriv, fp)
 	}
 	sort.Strings(sf.NonTriv)
 	b, _ := json.Marshal(sf)
-	os.WriteFile(filepath.Join(r.outDir, "stats-"+r.Test+".json"), b, 0644)
+	name := "stats-" + r.Test + ".json"
+	if r.statsName != "" {
+		name = r.statsName
+	}
+	tmp := filepath.Join(r.outDir, name+".tmp")
+	if os.WriteFile(tmp, b, 0644) == nil {
+		os.Rename(tmp, filepath.Join(r.outDir, name))
+	}
 }
 
 // ReplayFiles returns the replay files this process was asked to re-execute
@@ -244,3 +282,7 @@ func EnvInt(name string, def int) int {
 	}
 	return def
 }
+
+// ReplayAs names the test that re-executes the fail files this recorder writes
+// (a fuzz target whose cases have the same form as those of a rapid test).
+func (r *Recorder) ReplayAs(test string) { r.Test = test }
